@@ -16,8 +16,8 @@ vars == <<depth, abs, segs>>
 
 OpSeq == << <<"fstree", "put">>, <<"fstree", "get">>, <<"fstree", "delete">>, <<"fstree", "query">>,
             <<"zip", "file">>, <<"zip", "dir">>,
-            <<"ds", "rel">>, <<"ds", "relchild">>, <<"ds", "absroot">>, <<"ds", "absparent">>,
-            <<"scan", "root">>, <<"scan", "parent">> >>
+            <<"ds", "rel">>, <<"ds", "relchild">>, <<"ds", "absroot">>, <<"ds", "absparent">>, <<"ds", "reldir">>,
+            <<"scan", "root">>, <<"scan", "parent">>, <<"scan", "relroot">> >>
 KindSeq == <<"root", "child", "parent", "zip">>
 
 \* verdict of the model for one name, per way of resolving it (same order as KindSeq)
